@@ -60,11 +60,11 @@ POS = {
 ALL_POS = ["top_let"] + sorted(POS)
 INCLUDE_VIA_IDF = {"binary_rhs", "reduce_cb", "filter_cb", "not", "in", "reduce_acc"}
 # positions whose import is *not* at the top level of a let (the ones the path rewriter has to reach through the walker)
-SPELL = ["plain", "dot", "dotdot", "redundant", "updown", "abs", "abs_redundant"]
+SPELL = ["plain", "dot", "dotdot", "redundant", "updown", "abs", "abs_redundant", "backslash"]
 FORMS = ["let", "expr", "called_func"]
 PROBES = ["pos_" + p for p in ALL_POS] + ["fail_msg_site", "decoy_value_distinguishable", "three_spelling_same_file", "diamond",
                                          "back_edge_let", "back_edge_expr", "back_edge_called_func", "back_edge_at_position", "back_edge_in_module", "back_edge_in_callback", "cycle_len_1", "cycle_len_2", "cycle_len_3",
-                                         "back_edge_respelled", "include_site", "lib_level_site", "fault_with_decoy", "identical_twin_files", "back_edge_via_hof", "entry_respelled", "cwd_entered_through_symlink", "built_by_ucg_test", "same_name_in_importers_directory", "library_is_a_symlink", "paths_differing_in_case_only"]
+                                         "back_edge_respelled", "include_site", "lib_level_site", "fault_with_decoy", "identical_twin_files", "back_edge_via_hof", "entry_respelled", "cwd_entered_through_symlink", "built_by_ucg_test", "same_name_in_importers_directory", "library_is_a_symlink", "paths_differing_in_case_only", "import_search_path_points_at_decoys", "backslash_separators"]
 DECOY_CWD = "decoy/d1/d2/d3"
 DIRSETS = [["", "lib"], ["", "lib", "lib/deep"], ["app", "lib"], ["app", "lib", "shared/x"], ["", "a", "a/b", "a/b/c"], ["app/svc", "lib", ""],
            ["", "stdcfg"], ["app", "stdx/inner"]]
@@ -144,7 +144,9 @@ def generate(rng, tier, idx):
              # `ucg test` goes through the same import machinery with the validate flag set on the entry's VM only
              "command": rng.weighted([("build", 4), ("test", 1)]),
              # the shell's view of the working directory: $PWD (logical path); one of the three directories may be entered through a symlink
-             "cwd_symlinked": rng.chance(30)}
+             "cwd_symlinked": rng.chance(30),
+             # the documented search path for imports, pointing at a tree that has a file at every relative path the project imports
+             "import_path_env": rng.chance(20)}
     if world["command"] == "test":
         files[0]["path"] = files[0]["path"][:-len("main.ucg")] + "main_test.ucg"
     # re-establish reachability after truncation
@@ -221,6 +223,11 @@ def generate(rng, tier, idx):
     elif mode == "fail_msg":
         j = rng.between(1, n - 1)
         world["fail_site"] = {"target": j, "spelling": pick_spell(), "kind": "import", "fmt": rng.chance(50)}
+    for f_ in files:
+        for s_ in f_["sites"]:
+            # (the compiler translates Windows-style separators for imports only; an include path is a plain file name)
+            if s_["kind"] == "include_str" and s_["spelling"] == "backslash":
+                s_["spelling"] = "plain"
     if world.get("twin_link_wanted"):
         # ... not a copy but a symbolic link to the first twin (a shared template): the file that contains the import expression is the
         # one that was named, so its directory - not the link target's - decides what `tbase.ucg` means.  Only when nothing else was
@@ -304,6 +311,9 @@ def spelled(frm_path, to_path, how, proj_abs):
         return "./" + rel
     if how == "abs":
         return proj_abs + "/" + to_path
+    if how == "backslash":
+        # Windows-style separators are legal in import strings and mean the same file
+        return rel.replace("/", "\\")
     if how == "abs_redundant":
         # absolute, with segments that cancel out (the project directory's own name is known to exist)
         return proj_abs + "/./../" + os.path.basename(proj_abs) + "/" + to_path.replace("/", "/./")
@@ -353,7 +363,7 @@ def render_file(world, i, proj_abs, ids, target_value):
     vs = []
     for n, s in enumerate(f["sites"]):
         tpath = files[s["target"]]["path"] if s["kind"] == "import" else world["data"][s["target"]]["path"]
-        p = spelled(f["path"], tpath, s["spelling"], proj_abs)
+        p = escape(spelled(f["path"], tpath, s["spelling"], proj_abs))
         x = escape(target_value(s))
         if s["pos"] == "top_let":
             if s["kind"] == "import":
@@ -369,11 +379,11 @@ def render_file(world, i, proj_abs, ids, target_value):
                 e = 'idf(include str "%s")' % p
             else:
                 e = '(include str "%s")' % p
-            L.append(POS[s["pos"]].replace("@EQ@", e.replace('"', '\\"')).replace("@E@", e).replace("@N@", str(n)).replace("@X@", x))
+            L.append(POS[s["pos"]].replace("@EQ@", e.replace("\\", "\\\\").replace('"', '\\"')).replace("@E@", e).replace("@N@", str(n)).replace("@X@", x))
         vs.append("v%d" % n)
     be = world["back_edge"]
     if be and be["from"] == i:
-        p = spelled(f["path"], files[be["to"]]["path"], be["spelling"], proj_abs)
+        p = escape(spelled(f["path"], files[be["to"]]["path"], be["spelling"], proj_abs))
         if be["form"] == "let":
             L.append('let back = import "%s";' % p)
         elif be["form"] == "expr":
@@ -409,7 +419,7 @@ def render_fail_entry(world, proj_abs):
     fs = world["fail_site"]
     f0 = world["files"][0]
     d = os.path.dirname(f0["path"])
-    p = spelled((d + "/" + fail_entry_name(world)).lstrip("/"), world["files"][fs["target"]]["path"], fs["spelling"], proj_abs)
+    p = escape(spelled((d + "/" + fail_entry_name(world)).lstrip("/"), world["files"][fs["target"]]["path"], fs["spelling"], proj_abs))
     if fs.get("fmt"):
         return 'let v = fail "stop: @" %% ((import "%s").id);\n' % p
     return 'let v = fail (import "%s").id;\n' % p
@@ -444,6 +454,12 @@ def execute(world, sb, res):
         sb.write("proj/" + f["path"], render_file(world, i, proj_abs, ids, target_value))
     if world.get("case_variants"):
         res.probe("paths_differing_in_case_only")
+    if world.get("import_path_env"):
+        res.probe("import_search_path_points_at_decoys")
+    if any(s_["spelling"] == "backslash" and "/" in os.path.relpath(
+            files[s_["target"]]["path"] if s_["kind"] == "import" else world["data"][s_["target"]]["path"], os.path.dirname(f_["path"]) or ".")
+           for f_ in files for s_ in f_["sites"]):
+        res.probe("backslash_separators")
     for d in world["data"]:
         sb.write("proj/" + d["path"], d["uid"])
     for k, ip in enumerate(world.get("intruders", [])):
@@ -490,8 +506,9 @@ def execute(world, sb, res):
     for i, f in enumerate(files):
         for s in f["sites"]:
             tpath = files[s["target"]]["path"] if s["kind"] == "import" else world["data"][s["target"]]["path"]
-            text_pos.setdefault(spelled(f["path"], tpath, s["spelling"], proj_abs), set()).add(s["pos"])
+            text_pos.setdefault(spelled(f["path"], tpath, s["spelling"], proj_abs).replace("\\", "/"), set()).add(s["pos"])
     for kind, text in site_texts:
+        text = text.replace("\\", "/")
         if text.startswith("/"):
             continue
         # every intermediate directory of the un-normalised path must exist for the OS
@@ -605,7 +622,10 @@ def execute(world, sb, res):
         if sb.exists(art):
             sb.remove(art)
         argv = [command, arg] if world["strict"] else ["--no-strict", command, arg]
-        inv = sb.invoke(argv, cwd=logical.get(cname, cwd), env={"PWD": sb.p(logical.get(cname, cwd))})
+        run_env = {"PWD": sb.p(logical.get(cname, cwd))}
+        if world.get("import_path_env"):
+            run_env["UCG_IMPORT_PATH"] = sb.p(DECOY_CWD) + ":" + sb.p("elsewhere")
+        inv = sb.invoke(argv, cwd=logical.get(cname, cwd), env=run_env)
         out = inv.out
         traces = _TRACE.findall(out)
         artifact = None
